@@ -518,7 +518,9 @@ class Point:
         self.eq = []                      # (event index, field, float) for dense ranking at the end
         self.nan_events = []
         self.deg_events = []
+        self.flat_events = []
         self.gap = 1.0
+        self.flat = False
         self.stats = dict(yield_steps=0, elastic_steps=0, at_yield=0, holds_decreasing=0, limits_nontrivial=0,
                           rot_nontrivial=0, max_rel={})
 
@@ -528,8 +530,10 @@ class Point:
         mr = self.stats["max_rel"]
         if self.r.mode == "vmapBatch":
             key += ":batch"
+        if self.m["model"] == "j2_seth_hill":
+            key += ":seth_hill"
         if os.environ.get("MP_CALIB"):
-            key = key + ":" + self.m["model"] + ":" + self.r.mode + (":deg" if self.gap < 1e-6 else "")
+            key = key + ":" + self.m["model"] + ":" + self.r.mode + (":deg" if self.gap < 1e-5 else "")
         if math.isfinite(val) and val <= (1e9 if os.environ.get("MP_CALIB") else 1.0) and val > mr.get(key, 0.0):
             mr[key] = float(val)
 
@@ -558,7 +562,7 @@ class Point:
         return 10.0 ** self.rng.uniform(-8, 0)
 
     def _pick_dt(self, cls):
-        lo, hi = DT_CLASS[cls]
+        lo, hi = DT_CLASS[cls] if self.kind != "plastic" else (-3.0, 3.0)   # plastic: around 1/epsDot0
         ref = self.rng.choice([self.tau_min, self.tau_max])
         return ref * 10.0 ** self.rng.uniform(lo, hi)
 
@@ -665,7 +669,7 @@ class Point:
             if self.kind == "plastic":
                 ab += ALPHA["yield_factor"] * self.tol * self.meta["Y0"]
             allow = ALPHA["stress_eq_rel"] * max(n, np_norm(self.preg)) + ab
-            if commit and math.isfinite(d):
+            if commit and self.m["rateIndep"] and math.isfinite(d):
                 self._track("commit_stress", d / allow)
             if not (math.isfinite(d) and d <= allow):
                 self.sid = self._fresh()
@@ -682,13 +686,13 @@ class Point:
         allow = ALPHA["stress_sym_rel"] * np_norm(tau) + ALPHA["stress_abs"] * self.meta["Kref"]
         if self.kind == "plastic":         # in the plastic regime the stress is only determined to the solver tolerance
             allow += ALPHA["yield_factor"] * self.tol * self.meta["Y0"]
-        if math.isfinite(a):
+        if math.isfinite(a) and self.m["finiteDef"]:
             self._track("sym_stress", a / allow)
         return bool(math.isfinite(a) and a <= allow)
 
     def _observe(self, o, reset=False, commit=False, r=None, state=None, judged=False):
         r = r if r is not None else self.call(self.sc if state is None else state)
-        o["W"] = self._energy_id(r["W"], reset, judged or commit)
+        o["W"] = self._energy_id(r["W"], reset, judged or (commit and self.m["rateIndep"]))
         o["S"] = self._stress_id(r["P"], reset, commit)
         o["symS"] = self._sym(r["P"], self.F)
         return r
@@ -728,6 +732,7 @@ class Point:
             ub = max((trial - float(hard_stress(e_in, h))) / (3 * mu), 0.0)
             span = ub if ub > 0 else 1e-3 * Y0 / (3 * mu)
             g = span * onp.arange(33) / 32.0
+            self.flat = self._flat(s_in)
             # |dE - g N|^2 = nrm^2 - 2 g sqrt(3/2) nrm + 3/2 g^2
             hin = hard_energy(e_in, h)
             psi = mu * (nrm * nrm - 2 * g * math.sqrt(1.5) * nrm + 1.5 * g * g) + 0.5 * kap * onp.trace(Etr) ** 2 \
@@ -855,9 +860,28 @@ class Point:
             raise ValueError(a)
         self.gap = self._gap()
         if kind == "plastic" and a not in ("Update", "ReUpdate"):
+            self.flat = self._flat(self.sc)
+        if kind == "plastic" and a not in ("Update", "ReUpdate"):
             self.eq.append((i, "eOut", float(self.sc[0])))
             self.eq.append((i, "eIn", float(self.sc[0])))
         return o
+
+    def _flat(self, state):
+        """Classification feature only: the flow stress does not rise over the elastic-predictor bracket of the
+        current trial state (perfect plasticity, saturated Voce), so the root of the stationarity condition sits ON
+        the upper bracket."""
+        try:
+            h, mu = self.meta["hard"], self.meta["mu"]
+            if h["rate"] or not onp.all(onp.isfinite(state)):
+                return False
+            e = float(state[0])
+            trial = 2 * mu * np_mises(j2_elastic_strain(self.m["kin"], self.F, state))
+            span = (trial - float(hard_stress(e, h))) / (3 * mu)
+            if not (span > 0):
+                return False
+            return bool(float(hard_stress(e + span, h)) - float(hard_stress(e, h)) <= 1e-10 * 3 * mu * span)
+        except Exception:
+            return False
 
     def _gap(self):
         """Classification feature only: smallest relative eigenvalue gap of the (elastic) right Cauchy-Green
@@ -905,8 +929,10 @@ def run_trace(runner, variant, mode, ops, seed, tid, solver_tol):
             if not (math.isfinite(pt.wreg) and onp.all(onp.isfinite(pt.sc))
                     and (pt.sp is None or onp.all(onp.isfinite(pt.sp)))):
                 pt.nan_events.append(len(evs) + 1)
-            if pt.gap < 1e-6:
+            if pt.gap < 1e-5:
                 pt.deg_events.append(len(evs) + 1)
+            if pt.flat:
+                pt.flat_events.append(len(evs) + 1)
             evs.append(dict(a=op["a"], c=op.get("c", ""), dt=op.get("dt", ""), o=o))
     # dense ranks of every eqps value of the history (exact float comparison; NaN ranks lowest = 0)
     vals = sorted({v for _, _, v in pt.eq if math.isfinite(v)})
@@ -915,7 +941,7 @@ def run_trace(runner, variant, mode, ops, seed, tid, solver_tol):
         evs[i]["o"][fld] = rank.get(v, 0)
     tr = dict(id=tid, model=model_abs(variant), mode=mode, ev=evs)
     h = pt.meta.get("hard", {})
-    facts = dict(nan_events=pt.nan_events, deg_events=pt.deg_events, perfect_plasticity=bool(h.get("model") == "linear" and h.get("H") == 0.0),
+    facts = dict(nan_events=pt.nan_events, deg_events=pt.deg_events, flat_events=pt.flat_events, perfect_plasticity=bool(h.get("model") == "linear" and h.get("H") == 0.0),
                  rate_sensitive=bool(h.get("rate", False)))
     return tr, pt.stats, facts
 
@@ -1095,6 +1121,7 @@ def validate(traces, rep, pid, cases, facts=None):
         c["nan"] = bool(l in f.get("nan_events", []))
         c["near_equal_stretches"] = bool(l in f.get("deg_events", []))
         c["perfect_plasticity"] = bool(f.get("perfect_plasticity", False))
+        c["flat_hardening"] = bool(l in f.get("flat_events", []))
         c["rate_sensitive"] = bool(f.get("rate_sensitive", False))
         rep.fail(clause, c)
     if later:
@@ -1149,12 +1176,13 @@ def assign(behs_by_kind, plan, rng):
             s = rng.randrange(1 << 30)
             items.append((tid, ops, s))
             cases[tid] = dict(model=CATALOGUE[variant]["model"], variant=variant, mode=mode, ops=ops, seed=s)
-        if items:
-            jobs.append((variant, mode, items))
+        chunk = 8 if mode == "single" else 1500          # big shares are split so the worker pool stays busy
+        for c0 in range(0, len(items), chunk):
+            jobs.append((variant, mode, items[c0:c0 + chunk]))
     return jobs, cases
 
 
-def shares(targets, n_sim, n_ex_extra=0, cap_ex=None, prefer=None):
+def shares(targets, n_sim, n_ex_extra=0, cap_ex=None, prefer=None, boost=None):
     """Every exhaustive sequence goes to exactly one target of its kind (round robin after a seeded shuffle);
     every target also gets n_sim random walks (and n_ex_extra further exhaustive sequences)."""
     by_kind = {}
@@ -1175,6 +1203,9 @@ def shares(targets, n_sim, n_ex_extra=0, cap_ex=None, prefer=None):
                 mine = ex[k::K]
                 if cap_ex and kind in cap_ex:          # (C08 uses the history kinds only to reach evolved states)
                     mine = mine[:cap_ex[kind]]
+                if boost:                               # (predicate, n): n further seeds for histories of interest
+                    good = [b for b in ex if boost[0](b)]
+                    more += [rng.choice(good) for _ in range(boost[1])] if good else []
                 return mine + more + sim[:n_sim]
             plan.append((variant, mode, pick))
     return plan
@@ -1231,4 +1262,10 @@ def run_check(pid, tier, replay, plan, kinds, nsim, rule):
         for c in CLAUSES[pid]:
             if rep.coverage["clauses_evaluated"].get(c, 0) == 0:
                 rep.machinery("vacuity: clause %s was never evaluated" % c)
+        need = {"elastic": ["Reset", "Deform", "SupRot", "RefRot"],
+                "plastic": ["Reset", "Deform", "SupRot", "RefRot", "Update", "ReUpdate", "Commit"],
+                "viscous": ["Reset", "Deform", "SupRot", "RefRot", "Hold", "Load", "LimitFast", "LimitSlow"]}
+        for a in sorted({a for k in kinds for a in need[k]}):
+            if acts.get(a, 0) == 0:
+                rep.machinery("vacuity: action %s of the design spec was never replayed" % a)
     return rep.finish(rule=rule, extra={"distinct_nontrivial": len(traces)}, exhaustive=False)
